@@ -52,6 +52,9 @@ def seq_histories(draw, tier):
         st.tuples(st.just("del"), st.integers(0, 1)),
         st.tuples(st.just("fail-next"), st.integers(0, 1)),
         st.tuples(st.just("await-temp"), st.integers(0, 1)),
+        # the instance gets a NEW attribute dict with the same content (the "reset / copy my state" idiom): the
+        # attributes - cached values and placeholders included - are what they were
+        st.tuples(st.just("rebind-dict"), st.integers(0, 1)),
     )
     return {"ops": [list(o) for o in draw(st.lists(op, min_size=draw(st.sampled_from([0, 5])),
                                                    max_size=40 if tier == "quick" else 60))],
@@ -210,6 +213,9 @@ def check_seq(case):
                     problem = await do_await(i, awaitable)
                     if model[i] is None:
                         in_dict[i] = True
+            elif name == "rebind-dict":
+                object.__setattr__(objs[arg], "__dict__", dict(vars(objs[arg])))
+                problem = None
             elif name == "del":
                 try:
                     del objs[arg].prop
